@@ -390,7 +390,9 @@ class Evaluator:
                  | None = None,
                  loop_hook: Callable[["Evaluator", Env, ast.stmt], bool]
                  | None = None,
-                 arrays: set[str] | None = None) -> None:
+                 arrays: set[str] | None = None,
+                 int_transparent: bool = False) -> None:
+        self.int_transparent = int_transparent
         self.const_of = const_of
         self.call_hook = call_hook
         self.loop_hook = loop_hook
@@ -418,8 +420,16 @@ class Evaluator:
                     return Poly.const(c)
             return Poly.var(n.id)
         if isinstance(n, ast.Attribute):
+            if isinstance(n.value, ast.Name) and n.value.id in env.vars:
+                b = env.vars[n.value.id]
+                at = b.as_atom() if isinstance(b, Poly) else None
+                if at is not None and at[0] == "var":
+                    return Poly.var(f"{at[1]}.{n.attr}")
+                raise Unsupported(f"attribute of {n.value.id}", n)
             if self.const_of is not None:
                 c = self.const_of(n)
+                if isinstance(c, Poly):
+                    return c
                 if isinstance(c, (int, float, Fraction)) and not isinstance(
                         c, bool):
                     return Poly.const(c)
@@ -514,7 +524,10 @@ class Evaluator:
             elif bound is not None and not isinstance(bound, Poly):
                 raise Unsupported(f"subscript of {name}", n)
             elif isinstance(bound, Poly):
-                raise Unsupported(f"subscript of scalar {name}", n)
+                at = bound.as_atom()
+                if at is None or at[0] != "var":
+                    raise Unsupported(f"subscript of scalar {name}", n)
+                name = at[1]
         elif isinstance(base, ast.Attribute):
             name = ast.unparse(base)
         else:
@@ -567,7 +580,7 @@ class Evaluator:
             name = fn.attr
         if name in ("int", "float") and len(n.args) == 1 and not n.keywords:
             v = self.num(env, n.args[0])
-            if name == "float":
+            if name == "float" or self.int_transparent:
                 return v
             return Poly.atom(("app", "int", (v,))) if not _is_integral(v) \
                 else v
